@@ -999,9 +999,166 @@ func (e *Engine) operatorScenario(ch *kernel.Chooser, st *kernel.Stats) kernel.R
 	return res
 }
 
+// operatorTransparency: the builder carries registered operators (an infix operator at ANY level, also above
+// MEMBER and at the assignment level, a prefix and a postfix operator) and the program uses them in chains
+// mixed with built-in operators. k pass-through (or re-entering) interceptors must leave tree, errors and
+// output exactly as they are with zero interceptors on the same builder configuration.
+func (e *Engine) operatorTransparency(ch *kernel.Chooser, st *kernel.Stats) kernel.RunResult {
+	res := kernel.RunResult{Evals: 1}
+	p := gen.Generate(ch, genCfg(ch, false, false))
+	level := 2 + ch.Choose(15)
+	// every occurrence of one built-in binary operator becomes the registered word
+	var ops []string
+	seen := map[string]bool{}
+	for _, t := range p.Toks {
+		if t.Role == "bin.op" && !seen[t.Text] {
+			seen[t.Text] = true
+			ops = append(ops, t.Text)
+		}
+	}
+	var sb strings.Builder
+	if len(ops) > 0 {
+		victim := ops[ch.Choose(len(ops))]
+		last := 0
+		for _, t := range p.Toks {
+			if t.Role == "bin.op" && t.Text == victim {
+				sb.WriteString(p.Text[last:t.Start])
+				sb.WriteString(" OPz ")
+				last = t.End
+			}
+		}
+		sb.WriteString(p.Text[last:])
+	} else {
+		sb.WriteString(p.Text)
+	}
+	text := sb.String()
+	if !strings.HasSuffix(strings.TrimRight(text, " \t"), "\n") && !strings.HasSuffix(strings.TrimRight(text, " \t\n"), ";") {
+		text += ";"
+	}
+	atoms := []string{"a", "b.c", "f(x)", "(a + 1)", "n[0]", "2", "a.b OPz c"}
+	bins := []string{"+", "*", "==", "&&", "||", "<", "-", "%", "OPz", "OPz", "OPz", "."}
+	for i, n := 0, 1+ch.Choose(3); i < n; i++ {
+		var c strings.Builder
+		c.WriteString("\n")
+		if ch.Bool(1, 3) {
+			c.WriteString("x = ")
+		}
+		for j, m := 0, 2+ch.Choose(4); j < m; j++ {
+			if j > 0 {
+				op := bins[ch.Choose(len(bins))]
+				if op == "." {
+					c.WriteString(".p OPz ")
+				} else {
+					c.WriteString(" " + op + " ")
+				}
+			}
+			if ch.Bool(1, 5) {
+				c.WriteString("PREz ")
+			}
+			c.WriteString(atoms[ch.Choose(len(atoms))])
+			if ch.Bool(1, 5) {
+				c.WriteString(" POSTz")
+			}
+		}
+		c.WriteString(";")
+		text += c.String()
+	}
+	m := xutil.AllModes[ch.Choose(4)]
+	type outc struct{ dump, errs, code string }
+	run := func(k int, reenterEvery int) (o outc, ok bool) {
+		lb := lexer.NewBuilder()
+		pb := parser.NewBuilder(lb).WithTolerantMode(m.Tolerant).WithSmartSemicolon(m.Smart)
+		ids := map[string]token.Type{}
+		for _, w := range []string{"OPz", "PREz", "POSTz"} {
+			ids[w] = lb.RegisterTokenType(w)
+		}
+		lb.UseTokenInterceptor(func(l *lexer.Lexer, next func() token.Token) token.Token {
+			t := next()
+			if t.Type == token.IDENT {
+				if id, ok := ids[t.Literal]; ok {
+					t.Type = id
+				}
+			}
+			return t
+		})
+		e1 := pb.RegisterInfixOperator(ids["OPz"], level, func(tok token.Token, left ast.Expression, right func() ast.Expression) ast.Expression {
+			return &opStandIn{Tok: tok, L: left, R: right(), Lvl: level}
+		})
+		e2 := pb.RegisterPrefixOperator(ids["PREz"], func(tok token.Token, right func() ast.Expression) ast.Expression {
+			return &opStandIn{Tok: tok, L: &ast.Identifier{Token: tok, Value: "pre"}, R: right(), Lvl: parser.UNARY}
+		})
+		e3 := pb.RegisterPostfixOperator(ids["POSTz"], func(tok token.Token, left ast.Expression) ast.Expression {
+			return &opStandIn{Tok: tok, L: left, R: &ast.Identifier{Token: tok, Value: "post"}, Lvl: parser.CALL}
+		})
+		if e1 != nil || e2 != nil || e3 != nil {
+			return o, false
+		}
+		n := 0
+		for i := 0; i < k; i++ {
+			pb.UseExpressionInterceptor(func(ps *parser.Parser, next func() ast.Expression) ast.Expression {
+				n++
+				if reenterEvery > 0 && n%reenterEvery == 0 {
+					left := ps.ParsePrefixExpression()
+					return ps.ParseRemainingExpression(left)
+				}
+				return next()
+			})
+			pb.UseStatementInterceptor(func(ps *parser.Parser, next func() ast.Statement) ast.Statement { return next() })
+		}
+		po := xutil.Parse(pb, text)
+		if po.Panic != nil {
+			return outc{dump: fmt.Sprint("panic: ", po.Panic)}, true
+		}
+		o = outc{dump: xutil.Dump(po.Program), errs: xutil.ErrorsString(po.Errors)}
+		if po.Err == nil {
+			r, pan, _ := xutil.Compile(xutil.CompilerConfig{}, po.Program)
+			o.code = fmt.Sprint(pan) + r.Code
+		}
+		return o, true
+	}
+	base, ok := run(0, 0)
+	if !ok {
+		return res
+	}
+	st.Inc("probe.transparency_with_registered_operators")
+	if level > parser.MEMBER {
+		st.Inc("probe.transparency_with_infix_operator_above_member_level")
+	}
+	res.Nontrivial = true
+	res.Fingerprint = kernel.Mix(kernel.Hash64(text), uint64(level))
+	k := 1 + ch.Choose(4)
+	re := 0
+	if ch.Bool(1, 2) {
+		re = 1 + ch.Choose(3)
+	}
+	got, _ := run(k, re)
+	res.Steps = int64(len(text))
+	if got != base {
+		what, sig := "tree", "transparency|registered-operators|tree"
+		switch {
+		case got.dump != base.dump:
+		case got.errs != base.errs:
+			what, sig = "errors", "transparency|registered-operators|errors"
+		default:
+			what, sig = "output", "transparency|registered-operators|output"
+		}
+		kind := "transparency"
+		if re > 0 {
+			kind, sig = "reentrant", strings.Replace(sig, "transparency|", "reentrant|", 1)
+		}
+		res.Violations = append(res.Violations, kernel.Violation{Property: "C04", Kind: kind, Signature: sig,
+			Detail:       fmt.Sprintf("builder with infix OPz at level %d, prefix PREz, postfix POSTz (mode %s): with %d expression and statement interceptors (re-entering every %d-th invocation; 0 = all pass through) the %s differs from the zero-interceptor run\ninput: %q\nwith interceptors: errors %q code %q\nwithout: errors %q code %q", level, m, k, re, what, text, got.errs, clip(got.code), base.errs, clip(base.code)),
+			Materialised: map[string]any{"input": text, "level": level, "interceptors": k, "reenter_every": re, "mode": m.String()}})
+	}
+	return res
+}
+
 func (e *Engine) Run(prop string, ch *kernel.Chooser, st *kernel.Stats) kernel.RunResult {
 	if prop == "C04" && ch.Bool(1, 12) {
 		return e.operatorScenario(ch, st)
+	}
+	if prop == "C04" && ch.Bool(1, 12) {
+		return e.operatorTransparency(ch, st)
 	}
 	forC16 := prop == "C16"
 	gcfg := genCfg(ch, forC16, e.tier == "thorough")
@@ -1563,7 +1720,7 @@ func init() {
 			"sampling over programs, installations and action schedules; not exhaustive",
 		},
 		RequiredProbes: map[string][]string{
-			"C04": {"probe.reentrant_invocations", "probe.reentrant_at_depth_ge3", "probe.reentrant_party_before_passthrough_party", "probe.installed_via_plugin", "probe.malformed_with_errors_under_many_interceptors", "probe.eight_of_each_kind", "probe.builder_reused_for_another_parser", "probe.party_installed_between_two_builds", "probe.nested_parser_run_inside_interceptor", "probe.reentrant_via_specific_public_parse_function", "probe.plugin_uses_captured_builder", "probe.plugin_installs_nested_plugin", "fault.odd_prefix", "probe.statement_step_requested_through_public_ParseStatement", "probe.registered_operator_stands_in_for_a_builtin_one", "probe.operand_requested_through_ParseExpressionWithPrecedence"},
+			"C04": {"probe.reentrant_invocations", "probe.reentrant_at_depth_ge3", "probe.reentrant_party_before_passthrough_party", "probe.installed_via_plugin", "probe.malformed_with_errors_under_many_interceptors", "probe.eight_of_each_kind", "probe.builder_reused_for_another_parser", "probe.party_installed_between_two_builds", "probe.nested_parser_run_inside_interceptor", "probe.reentrant_via_specific_public_parse_function", "probe.plugin_uses_captured_builder", "probe.plugin_installs_nested_plugin", "fault.odd_prefix", "probe.statement_step_requested_through_public_ParseStatement", "probe.registered_operator_stands_in_for_a_builtin_one", "probe.operand_requested_through_ParseExpressionWithPrecedence", "probe.transparency_with_registered_operators", "probe.transparency_with_infix_operator_above_member_level"},
 			"C16": {"probe.depth_ge5", "probe.function_body_direct", "probe.funcexpr_in_call_argument", "probe.funcexpr_in_object_value", "probe.funcexpr_in_condition", "probe.final_state_checked_on_erroring_input", "probe.nested_parser_run_inside_interceptor", "probe.builder_reused_for_another_parser", "probe.bailout_recovered_by_outer_interceptor", "probe.bailout_thrown_inside_function_body", "probe.reentrant_via_ParseFunctionExpression", "probe.context_stack_depth_ge40", "probe.public_ParseStatement_inside_function_body", "probe.nested_parser_built_from_the_same_builder", "probe.no_statement_party_installed", "probe.no_expression_party_installed", "probe.first_function_under_ge64_plain_blocks"},
 		},
 	})
